@@ -561,6 +561,7 @@ def random_pkg(rng, cfg: GenCfg) -> Pkg:
                 m.decls.append(En(names.fresh("E", cls=True), [], doc="An enum without members."))
             else:
                 m.decls.append(Cls(names.fresh("C", cls=True), doc="A class without members."))
+                public_classes.append((m, m.decls[-1].name))  # usable as a type elsewhere, like every public class
         pkg.modules.append(m)
     if cfg.twins and len(pkgs) > 1:
         for m in list(pkg.modules):
